@@ -189,6 +189,26 @@ def r1_columns(ctx, rep):
        "continueLine separates a trailing `!` comment from the statement",
        "continueLine appends ` &` to whatever the line ends with: on `      subroutine foo(a, !! first` the mark lands inside the "
        "comment, the statement is not continued and `b)` on the next card becomes a statement of its own", cl)
+    # ... and has to find it on every card: wherever the `!` stands after complete character literals (either delimiter, the
+    # other one inside) - a language inclusion between "code with complete literals, then a comment" and what the pattern matches
+    rxl = ctx.rx
+    for name, (pat, flags, node, _mod) in sorted(py.regex_constants().items()):
+        short = name.split(".")[-1]
+        if "!" not in pat or not any(isinstance(x, (ast.Name, ast.Attribute)) and ast.unparse(x).split(".")[-1] == short for x in ast.walk(cli)):
+            continue
+        how = {c.func.attr for c in ast.walk(cli) if isinstance(c, ast.Call) and isinstance(c.func, ast.Attribute)
+               and c.func.attr in ("match", "search", "fullmatch") and ast.unparse(c.func.value).split(".")[-1] == short}
+        if len(how) != 1:
+            continue
+        try:
+            lang = {"match": rxl.match_lang, "search": rxl.search_lang, "fullmatch": rxl.full}[how.pop()](pat, flags)
+            w = rxl.subset_witness(rxl.full(r"""(?:[^"'!]|'[^']*'|"[^"]*")*!.*""", 0), lang)
+        except rxl.Unsupported as e_:
+            raise AnalysisError(f"{short} not understood: {e_}")
+        ob(f"{short} finds the trailing comment after any complete character literals", w is None,
+           "every card `code-with-literals ! comment` is matched",
+           f"`{w}` is code with complete character literals followed by a comment, but the pattern does not match it: the continuation "
+           f"mark is appended behind the comment and the statement is cut at the card boundary", cl)
     exprs = role(an, "isContinuation")
     cols = cards.columns(exprs)
     ob("continuation column is column 6", cols == {(6, 6)}, "the continuation test reads column 6",
